@@ -468,6 +468,24 @@ theorem C20_read_local (P : Params) (hP2 : P.maxEntry ≤ P.bufSize) (f : File) 
     ∃ q', readNext P f q = (q', .ok (s, e)) ∧ q'.position = s - 1 ∧ Inv P f q' :=
   readNext_line P f q s e hP2 hl hlen hpos he hinv
 
+/-- **The clamped first chunk.**  A (re)fill at a position not beyond `bufSize` — the
+last refill of a backward read, whose chunk start is clamped to 0 — makes the
+buffer hold exactly `file[0, min bufSize size)`: cell `i` is file byte `i`, for
+every file size and whatever the previous window was; in particular all of
+`file[0, position)` is there (`C20_readall` / `C20_read_local` then give the
+lines, also the one straddling the end of that chunk). -/
+theorem C20_clamped_first_chunk (P : Params) (f : File) (q : QState) (e : Nat) (he : e ≤ P.bufSize) :
+    (initBuffer P f q e).1.bufStart = 0 ∧ (initBuffer P f q e).1.bufLen = min P.bufSize f.size ∧
+    (∀ i, i < min P.bufSize f.size → bufByte f (initBuffer P f q e).1 i = f.byte i) ∧
+    (e ≤ f.size → e ≤ (initBuffer P f q e).1.bufLen) := by
+  have h : ¬ (e > P.bufSize) := by omega
+  refine ⟨by simp [initBuffer, h], by simp [initBuffer, h], ?_, ?_⟩
+  · intro i hi
+    simp [bufByte, initBuffer, h, hi]
+  · intro hs
+    simp only [initBuffer, h, if_false, Nat.sub_zero]
+    omega
+
 /-- **`readQLogTimestamp` at byte level.**  The timestamp is the value of the FIRST
 occurrence of `"T":"` in the line, up to the next `"` — wherever the field
 stands (first or not); a line without it (or with an empty value) falls back
